@@ -8,6 +8,12 @@ NOT_APPLICABLE = {f"C{i:02d}": _PENDING for i in range(1, 21)}
 TRUST = "Trusted: rustc/std float semantics, the harness' own oracle code, the python driver. Held = held on the executions observed (exhaustive only for the sub-domains named in evidence)."
 
 CLAIMS = {
+    "C04": {
+        "text": "Runtime monitor + sanitizers over the whole casting layer: for 88 instantiations (every colour struct incl. the CAM16 family, Alpha, PreAlpha, Packed<_, [T;N]>, Packed<_, uN>, Luma as uint; f32/f64/u8/u16/u32 and u64/u128 for uint casts) every free function of palette::cast, every method of the cast traits and the std From/AsRef/AsMut/TryFrom impls is called on buffers of all lengths 0..=3N+2 and Vec capacities of every residue; each event checks same address, exact length/capacity scaling, declared field order through named field access with a distinct sentinel per component (alpha last), bit-exact round trip, acceptance iff length (and capacity) is a multiple, and that a rejected buffer comes back with the same pointer, length, capacity and contents. The same driver runs under Miri (stacked borrows, strict provenance, symbolic alignment; thorough adds tree borrows and all types) and under ASan/LSan, with the cast vectors pushed to, shrunk and dropped so that a wrong capacity becomes a heap/layout error; the native run has std ub_checks on.",
+        "design_ref": "DESIGN.md section 3, C04",
+        "note": TRUST + " Exhaustive over the stated (type, api, length<=3N+2, capacity residue) grid; other lengths are not run.",
+        "technique": "runtime monitoring: pointer/len/capacity and sentinel-field-order assertions at the API boundary, executed natively, under Miri and under AddressSanitizer",
+    },
     "C05": {
         "text": "Runtime monitors over the real transfer functions: thorough pushes all 2^32 f32 bit patterns through each of the five integer fast paths (sRGB, Rec OETF, Adobe, P3 gamma -> u8; ProPhoto -> u16; quick: stride-31 sweep plus every pattern within 2^12 of each exponent and table-bucket boundary and the hostile set) and judges each code against max*f(x) of the standard curve (error < 0.6, exact outside the tie band), saturation, monotonicity of the stream, reachability of every code and absence of panics; the cfg hook and std ub_checks make an out-of-range table index an observable event, and Miri + ASan execute the hostile/boundary set. All codes are decoded and re-encoded; the generic float curves are compared with the model, inverted and checked for monotonicity on straddle sets of both knees plus dense and seeded points; Rgb/Luma wiring is checked bit-exactly.",
         "design_ref": "DESIGN.md section 3, C05",
